@@ -245,7 +245,7 @@ def verdict(v, wants) -> str:
 # reference implementations: "this function computes what the vetted version computed"
 
 
-def reference_value(ctx: Ctx, short: str, qualname: str, ref_src: str, args: dict | None = None, everything: bool = False):
+def reference_value(ctx: Ctx, short: str, qualname: str, ref_src: str, args: dict | None = None, everything: bool = False, with_func: bool = False):
     """Abstract value of the vetted reference text of a function, evaluated in the *current* module (so that the
     helpers, imports and module constants it refers to are today's)."""
     import textwrap
@@ -253,7 +253,7 @@ def reference_value(ctx: Ctx, short: str, qualname: str, ref_src: str, args: dic
     from sa.sm import SourceModel
 
     cache = ctx.__dict__.setdefault("_ref_values", {})
-    key = (short, qualname, ref_src, tuple(sorted((args or {}).items())), everything)
+    key = (short, qualname, ref_src, tuple(sorted((args or {}).items())), everything, with_func)
     if key in cache:
         return cache[key]
     f = ctx.sm.func(short, qualname)
@@ -267,8 +267,15 @@ def reference_value(ctx: Ctx, short: str, qualname: str, ref_src: str, args: dic
     overlay = dict(getattr(ctx.sm, "overlay", {}) or {})
     overlay[rel] = "\n".join(lines[:start] + new + lines[end:])
     sm2 = SourceModel(ctx.repo, overlay=overlay)
-    f2 = sm2.func(short, qualname)
+    # the reference keeps its own name: it stands where the function stands (same module, class or enclosing function)
+    import re as _re
+
+    m_ = _re.search(r"^\s*def\s+(\w+)", textwrap.dedent(ref_src), _re.M)
+    q2 = ".".join(qualname.split(".")[:-1] + [m_.group(1)]) if m_ else qualname
+    f2 = sm2.func(short, q2, required=False) or sm2.func(short, qualname)
     val = (_av.AV(sm2, inline=lambda callee: True, cha=True) if everything else _av.AV(sm2)).returned(f2, args)[0]
+    if with_func:
+        val = (val, f2)
     cache[key] = val
     return val
 
